@@ -220,9 +220,18 @@ def versioned_relationships(obj, versioned_column_keys):
 
     :param obj: SQLAlchemy declarative model object
     """
-    for prop in sa.inspect(obj.__class__).relationships:
-        if any(c.key in versioned_column_keys for c in prop.local_columns):
-            yield prop
+    mapper = sa.inspect(obj.__class__)
+    for prop in mapper.relationships:
+        for column in prop.local_columns:
+            # versioned_column_keys are attribute keys: an attribute may be
+            # named differently from its column (id = Column('_id'))
+            try:
+                key = mapper.get_property_by_column(column).key
+            except sa.orm.exc.UnmappedColumnError:
+                key = column.key
+            if key in versioned_column_keys:
+                yield prop
+                break
 
 
 def vacuum(session, model, yield_per=1000):
